@@ -25,3 +25,9 @@ package base
 //@   ensures[same]   result == set
 //@   ensures[keys]   forall k string :: {k in set} (k in set) <==> old(k in set) || k == value
 //@   ensures[len]    len(set) == old(len(set)) + ite(old(value in set), 0, 1)
+
+// TRUSTED: see roleDocKey in /verif/trusted/c02_keys.spec (prefixes are immutable; over-long names are hashed deterministically).
+//@ func MetadataKeys.RoleKey
+//@   trusted
+//@   inert
+//@   ensures result == roleDocKey(m, name)
